@@ -484,6 +484,10 @@ def _param_schema(draw, g: Gate, names: list[str], location: str) -> dict:
     ], fallback="string")
     if location == "path" and kind in ("array", "boolean"):
         kind = "string"
+    if location in ("header", "cookie") and kind in ("integer", "boolean", "number", "array"):
+        # non-string header/cookie values are handed to httpx as they are (TypeError / wrong rendering): finding C04-F02
+        if not g.flag(draw, "header_param_non_string", 1, 1):
+            kind = "string"
     if kind in ("string", "integer", "boolean", "number"):
         return {"type": kind}
     if kind == "enum":
@@ -491,7 +495,8 @@ def _param_schema(draw, g: Gate, names: list[str], location: str) -> dict:
     if kind == "array":
         return {"type": "array", "items": {"type": draw(st.sampled_from(["string", "integer"]))}}
     if kind == "date":
-        return {"type": "string", "format": draw(st.sampled_from(["date", "date-time"]))}
+        # a date-time in the PATH has no agreed textual form (str(datetime) vs isoformat): only `date` is generated there
+        return {"type": "string", "format": "date" if location == "path" else draw(st.sampled_from(["date", "date-time"]))}
     if kind == "uuid":
         return {"type": "string", "format": "uuid"}
     return {"type": "string"}
@@ -634,7 +639,7 @@ def _operation(draw, g: Gate, names: list[str], path: str, path_vars: list[str],
             continue
         params.append({"name": v, "in": "path", "required": True, "schema": _param_schema(draw, g, names, "path")})
     n_extra = draw(st.integers(0, 4))
-    seen = {(p["in"], p["name"]) for p in params} | set(path_level_names)
+    seen = {(p["in"], p["name"]) for p in params} | set(path_level_names) | {("path", v) for v in path_vars}
     for _ in range(n_extra):
         loc = g.pick(draw, [(None, "query"), (None, "query"), (None, "query"), ("header_param", "header"), ("cookie_param", "cookie")], fallback="query")
         pname = g.pick(draw, [(None, n) for n in PARAM_NAMES] + [("hostile_param_name", n) for n in HOSTILE_PARAM_NAMES]
@@ -659,7 +664,13 @@ def _operation(draw, g: Gate, names: list[str], path: str, path_vars: list[str],
             (None, "json"), (None, "json"), (None, "json"), ("body_form", "form"), ("body_multipart", "multipart"), ("body_octet", "octet"),
             ("body_multi_content", "multi"), ("body_text", "text"),
         ], fallback="json")
+        if media == "multi" and (any(p["in"] != "path" for p in params) or any(loc != "path" for loc, _ in path_level_names)):
+            # the multi-content dispatch drops query/header/cookie parameters: finding C04-F01
+            if not g.flag(draw, "multi_content_with_params", 1, 1):
+                media = "json"
         rb: dict[str, Any] = {"required": True if not g.flag(draw, "body_optional", 1, 5) else False}
+        if media == "multi" and not rb["required"] and not g.flag(draw, "multi_content_optional_body", 1, 1):
+            rb["required"] = True
         if media == "json":
             rb["content"] = {"application/json": {"schema": _body_schema(draw, g, names)}}
         elif media == "form":
